@@ -11,6 +11,8 @@ nums (symbolic in the harness): blank/comment lines before each physical line (0
 import ast
 import re
 
+# a bracket after which the line may be broken: a parenthesised value or the arguments of a call
+BREAK = re.compile(r'(?:=\s|print|\bin\s|if\s|while\s)\((?=[\w(])')
 HEADER = re.compile(r'^\s*(if|elif|else|for|while|try|except|finally|with|def|class|async)\b.*:\s*$')
 
 
@@ -44,7 +46,7 @@ def eligible(lines):
             if ok:
                 out.append(('oneline', i))
     for i, ln in enumerate(lines):
-        if re.search(r'\((\w+), ', ln) and not ln.lstrip().startswith(('def ', 'class ', '@', 'with ')):
+        if BREAK.search(ln) and not ln.lstrip().startswith(('def ', 'class ', '@', 'with ')):
             out.append(('break', i))
     return out
 
@@ -61,8 +63,8 @@ def apply(lines, on, nums):
         lvl = indent_of(ln)
         brk = None
         if ('break', i) in on:
-            m = re.search(r'\((\w+), ', body)
-            k = m.start() + 1
+            m = BREAK.search(body)
+            k = m.end()
             body, brk = body[:k], body[k:]
         if ('oneline', i) in on:
             gap = ' ' * (1 + nums.get(('gap', i), 0))
